@@ -39,7 +39,7 @@ typedef struct {
 	void *arg;
 	int joined;
 	int is_early;             /* TIMER waits may be woken early */
-	int held[VS_MAXL]; int nheld;
+	int held[VS_MAXL]; uint8_t heldmode[VS_MAXL]; int nheld;   /* heldmode: 1 exclusive (mutex / write lock), 2 shared (read lock) */
 	int kind;                 /* kind of pending operation (for cp records) */
 	const char *label;
 } vs_thread_t;
@@ -118,6 +118,8 @@ int vs_nlocks(void) { return nlk; }
 uint8_t vs_edge(int a, int b) { return edges[a][b]; }
 const char *vs_edge_label(int a, int b) { return edge_label[a][b] ? edge_label[a][b] : ""; }
 void vs_set_label(const char *label) { if (self_id >= 0) th[self_id].label = label; }
+void vs_edges_reset(void) { memset(edges, 0, sizeof edges); memset(edge_label, 0, sizeof edge_label); }
+void vs_set_thread_label(int tid, const char *label) { if (tid >= 0 && tid < nth) th[tid].label = label; }
 int vs_threads_created(void) { return n_created; }
 int vs_threads_joined(void) { return n_joined; }
 int vs_thread_live_unjoined(void) {
@@ -213,18 +215,21 @@ static void check_deadlock(int t) {
 	}
 }
 
-static void held_add(int t, int l) {
+static void held_add(int t, int l, int mode) {
 	vs_thread_t *T = &th[t];
 	for (int i = 0; i < T->nheld; i++) {
 		int a = T->held[i];
-		if (a != l && !edges[a][l]) { edges[a][l] = 1; edge_label[a][l] = T->label; }
+		/* edge bits: (held excl, acq excl)=1, (held excl, acq shared)=2, (held shared, acq excl)=4, (held shared, acq shared)=8 */
+		uint8_t bit = (uint8_t) (T->heldmode[i] == 1 ? (mode == 1 ? 1 : 2) : (mode == 1 ? 4 : 8));
+		if (a != l) { if (!edges[a][l]) edge_label[a][l] = T->label; edges[a][l] |= bit; }
 	}
-	if (T->nheld < VS_MAXL) T->held[T->nheld++] = l;
+	if (T->nheld < VS_MAXL) { T->held[T->nheld] = l; T->heldmode[T->nheld] = (uint8_t) mode; T->nheld++; }
 }
 static void held_del(int t, int l) {
 	vs_thread_t *T = &th[t];
 	for (int i = T->nheld - 1; i >= 0; i--) if (T->held[i] == l) {
 		memmove(&T->held[i], &T->held[i + 1], sizeof(int) * (size_t) (T->nheld - i - 1));
+		memmove(&T->heldmode[i], &T->heldmode[i + 1], (size_t) (T->nheld - i - 1));
 		T->nheld--; return;
 	}
 }
@@ -233,9 +238,9 @@ static void grant(int t) {
 	vs_thread_t *T = &th[t];
 	switch (T->state) {
 	case TS_WANT_MUTEX: case TS_WANT_WR:
-		lk[T->want].owner = t; held_add(t, T->want); break;
+		lk[T->want].owner = t; held_add(t, T->want, 1); break;
 	case TS_WANT_RD:
-		lk[T->want].rcount[t]++; lk[T->want].nreaders++; held_add(t, T->want); break;
+		lk[T->want].rcount[t]++; lk[T->want].nreaders++; held_add(t, T->want, 2); break;
 	default: break;
 	}
 	T->state = TS_RUNNABLE;
